@@ -146,3 +146,26 @@ pub fn record(args: &[String]) {
     out.flush().unwrap();
     println!("{}", json!({"module": "convert", "events": n}));
 }
+
+/// ToZerv.tla: `zerv render` of arbitrary SemVer identifier lists, both output formats
+pub fn replay_tozerv(args: &[String]) {
+    let mut rep = Report::new("tozerv");
+    for case in tlc_lines(&args[0], "REPLAY") {
+        let s = cps(&case["s"]);
+        if case["canonical"].as_bool().unwrap() {
+            rep.nontrivial += 1;
+        }
+        for (to, want) in [("semver", cps(&case["semver"])), ("pep440", cps(&case["pep440"]))] {
+            rep.evaluations += 1;
+            let o = conv(&s, "semver", to);
+            if o.ok() != Some(want.as_str()) {
+                let k = if matches!(o, Outcome::Panic(_)) { "C07:panic" } else { "C07:semver-to-zerv" };
+                rep.mismatch(k, json!({"input": s, "to": to, "expected": want, "observed": {"kind": o.tag(), "text": o.text()}}));
+            }
+            if rep.evaluations % 6007 < 2 {
+                rep.sample(json!({"input": s, "to": to, "expected": want}));
+            }
+        }
+    }
+    rep.print();
+}
